@@ -20,7 +20,12 @@ PROP = {'level': 'proof',
          'characters over 9 extreme characters x all depth-4 histories x 4 iterator kinds; 2000 / 20000 '
          'seeded random strings (up to 11 random scalar values) with random histories of depth up to 15. '
          'Each step is taken on a .copy(); after each step the item and the position/length of as_str are '
-         'observed.',
+         'observed. A second seeded stream (~5 500 / 55 000 requests): 260 / 2 600 strings of 10..=40 random '
+         'scalar values from the whole range (edge scalars over-represented) x 4 iterator kinds under one '
+         'random history of 12..=60 steps (usually longer than the string: exhaustion is crossed) with a '
+         'random front/back bias; 2 000 / 20 000 from_u32 requests over the whole 32-bit range (uniform, '
+         'surrogate neighbourhood, valid scalar + one high garbage bit, multiples of 0x110000 away from a '
+         'scalar, top bit set); 2 500 / 25 000 random chars for encode_utf8.',
  'explanation': 'Theorems (Props/C07.lean) state model = RFC 3629 / deque spec for all chars, all u32, all '
                 'valid strings and all histories; the transcript ties the model to konst::chr::{encode_utf8, '
                 'from_u32}, konst::string::{chars, char_indices} and the spec to char::encode_utf8, '
